@@ -34,6 +34,8 @@ var c20Plain = []c20Kind{
 	{"MappedAddress(v4)", func() stun.Setter { return &stun.MappedAddress{IP: net.IPv4(5, 6, 7, 8).To4(), Port: 1002} }, stun.AttrMappedAddress},
 	{"AlternateServer(v6)", func() stun.Setter { return &stun.AlternateServer{IP: net.ParseIP("2001:db8::8"), Port: 1003} }, stun.AttrAlternateServer},
 	{"ErrorCode(401)", func() stun.Setter { return &stun.ErrorCodeAttribute{Code: 401, Reason: []byte("Unauthorized")} }, stun.AttrErrorCode},
+	{"ErrorCode(438,200B reason)", func() stun.Setter { return &stun.ErrorCodeAttribute{Code: 438, Reason: patBytes(200, 5)} }, stun.AttrErrorCode},
+	{"ErrorCode(500,763B reason)", func() stun.Setter { return &stun.ErrorCodeAttribute{Code: 500, Reason: patBytes(763, 6)} }, stun.AttrErrorCode},
 	{"UnknownAttributes(3)", func() stun.Setter {
 		u := stun.UnknownAttributes{stun.AttrRealm, stun.AttrNonce, stun.AttrUsername}
 		return &setPtr{u}
@@ -203,9 +205,9 @@ func init() {
 		Run: func(c *Ctx) {
 			runtime.GOMAXPROCS(1)
 			debug.SetGCPercent(-1) // no GC: sync.Pool is never purged, measurements are not disturbed
-			maxLen := 3
+			maxLen := 2
 			if c.Thorough() {
-				maxLen = 4
+				maxLen = 3
 			}
 			var item int64
 			try := func(s c20Shape) {
